@@ -5,8 +5,8 @@
 EXTENDS DnaDist, Json, TLC
 CONSTANT Scope
 VARIABLES c
-Sym == IF Scope = "full" THEN {65, 67, 71, 84, 82, 45} ELSE {65, 71, 67, 45}
-Len2 == IF Scope = "full" THEN 3 ELSE 2
+Sym == IF Scope = "full" THEN {65, 67, 71, 84, 82, 78, 45} ELSE {65, 71, 67, 45}
+Len2 == 2
 Models == {"rawdist", "pdist", "jc", "k2p", "f81", "f84", "tn93"}
 Opt(m, g, a, rg, gm, ra, w) == [model |-> m, gamma |-> g, alpha |-> a, rmgaps |-> rg, gapmode |-> gm, rmamb |-> ra, wts |-> w]
 NoRange == <<-1, -1, -1, -1>>
